@@ -506,6 +506,120 @@ func e6RelistCase(seed uint64, n int) Case {
 	}}
 }
 
+
+// e6CatchUpCase: one subscriber falls behind until its buffer overruns and then
+// catches up in one go, at the very moment the library is handling the overrun
+// (the harness's logger holds that moment open).  The subscribers that keep up
+// must not notice: every event, in order, exactly once.
+func e6CatchUpCase(seed uint64, n int) Case {
+	id := fmt.Sprintf("E6/sibling-catches-up-during-overrun/%d/%d", seed, n)
+	hold := []time.Duration{100 * time.Microsecond, 300 * time.Microsecond, 800 * time.Microsecond}[n%3]
+	return Case{ID: id, Desc: map[string]interface{}{"seed": seed, "n": n, "overrun_hold": hold.String(), "what": "a lagging sibling drains its whole backlog while its overrun is being handled"}, Bubble: true, Run: func(r *Res) {
+		rng := kit.NewRng(kit.Mix(seed, uint64(n)+6600))
+		// every Warn-level message of a subscription is held (the overrun report is the
+		// only one the pinned library has); plus the usual random perturbation
+		core := kit.NewCore(&kit.Plan{Seed: rng.U64(), PYield: 100, PSleep: 10, MaxSleep: 40 * time.Microsecond,
+			Targets: map[string]time.Duration{"overrun": hold, "buffer full": hold}})
+		g := newRootRig(core, nil)
+		defer g.stop(r, "C12")
+		g.root.MakeReady()
+		u := smallUniverse()
+		t := newTree(g.root.Publisher())
+		var healthy []*node
+		for _, k := range []string{"sub", "clone"} {
+			nd, err := t.addChild(t.root, k, nil, true)
+			if err != nil {
+				r.V("C05", "tree-build-error", "%v", err)
+				return
+			}
+			if k == "clone" {
+				if nd, err = t.addChild(nd, "sub", nil, true); err != nil {
+					r.V("C05", "tree-build-error", "%v", err)
+					return
+				}
+			}
+			healthy = append(healthy, nd)
+		}
+		lag, err := g.root.Publisher().Subscribe()
+		if err != nil {
+			r.V("C05", "tree-build-error", "%v", err)
+			return
+		}
+		g.barrier()
+		// the lagging consumer: sleeps until its buffer is full, a little longer, then
+		// takes everything that is there, again and again
+		stop := make(chan struct{})
+		cdone := make(chan struct{})
+		catchups := 0
+		lagDelay := time.Duration(20+rng.Intn(int(hold/time.Microsecond))) * time.Microsecond
+		go func() {
+			defer close(cdone)
+			ch := lag.Events()
+			for {
+				select {
+				case <-stop:
+					return
+				case <-time.After(10 * time.Microsecond):
+				}
+				if len(ch) < cap(ch) {
+					continue
+				}
+				time.Sleep(lagDelay)
+				for len(ch) > 0 {
+					<-ch
+				}
+				catchups++
+			}
+		}()
+		total := 3*kcache.EventBufsiz + 20
+		for i := 0; i < total; i++ {
+			okc := make(chan error, 1)
+			if !within(func() { _, err := g.mutate(rng, u); okc <- err }) {
+				r.V("C05", "producer-blocked", "publishing event %d of %d did not complete within %v of virtual time: a lagging sibling that caught up during its overrun blocks the fan-out\n%s", i, total, virtBound, kit.CensusText(kit.Census(), 10))
+				close(stop)
+				return
+			}
+			if err := <-okc; err != nil {
+				r.V("C05", "publish-error", "%v", err)
+				close(stop)
+				return
+			}
+			// at most 20 events in flight for the subscribers that keep up (the lagging
+			// consumer only sleeps at a barrier, it does not read)
+			if i%20 == 19 {
+				g.barrier()
+			}
+		}
+		time.Sleep(2 * hold)
+		close(stop)
+		<-cdone
+		g.barrier()
+		sent := g.sent
+		for _, h := range healthy {
+			checkExactP(r, "C05", h.String()+" (a sibling lagged, overran and caught up)", h.mir.events(), sent)
+			r.Add("leaves", 1)
+		}
+		r.Add("catch-ups-during-overrun", int64(catchups))
+		lag.Close()
+		r.Key(id)
+		r.Sample = map[string]interface{}{"published": len(sent), "catch_ups": catchups}
+	}}
+}
+
+// checkExactP: got must equal sent (same events, same order).
+func checkExactP(r *Res, prop, name string, got, sent []evrec) {
+	if len(got) != len(sent) {
+		r.V(prop, "subscriber-lost-events", "%s received %d of %d published events; tail: %s", name, len(got), len(sent), tailEvents(got, 5))
+		return
+	}
+	for i := range got {
+		if !sameEvent(got[i], sent[i]) {
+			r.V(prop, "subscriber-order", "%s: event %d is %s, published %s", name, i, got[i], sent[i])
+			return
+		}
+	}
+}
+
 func init() {
 	register("E6", func(tier string, seed uint64) []Case {
 		var cases []Case
@@ -519,6 +633,9 @@ func init() {
 		}
 		for i := 0; i < tierPick(tier, 60, 8000); i++ {
 			cases = append(cases, e6RelistCase(seed, i))
+		}
+		for i := 0; i < tierPick(tier, 18, 1200); i++ {
+			cases = append(cases, e6CatchUpCase(seed, i))
 		}
 		return cases
 	})
